@@ -472,7 +472,7 @@ def search(c, rng):
             yield Case(join_line(b, ops), kind="search", decides=True, theorem="C03_history")
 
 
-LEVEL_TEXT = ("Proof: Properties/C03.v (22 theorems, all 'Closed under the global context') over a Gallina transliteration of "
+LEVEL_TEXT = ("Proof: Properties/C03.v (33 theorems, plus the tie files ModelTie.v / C04tie.v; all 'Closed under the global context') over a Gallina transliteration of "
               "packet/adaptationfield.go, Packet.SetAdaptationField, the function-style accessor package and pcr.go (repaired code: F5, F6, C05 guards). "
               "C03_step_refines: for EVERY well-formed start (adaptation_field_length 1..183, any payload, any subset of optional fields), every one of "
               "the 14 setters and every in-range argument, the bytes after the call are header ++ ISO serialisation of the updated logical value ++ "
